@@ -388,6 +388,10 @@ func init() {
 		Old:    "\t\t\tgammaRightNameTypesCtx[p.new_name_c.Ident] = NamesType{Type: functionSignatureType}\n",
 		New:    "\t\t\tgammaRightNameTypesCtx[p.new_name_c.Ident] = NamesType{Type: p.new_name_c.Type}\n",
 		Expect: "(*process.NewForm).typecheckForm | cut-split#1"})
+	addFixture(Fixture{Name: "case-payload-may-be-called-like-the-provider", Rule: "R-BINDER-NOT-PROVIDER", File: "process/typechecker.go",
+		Old:    "\t\t\tif isProvider(curBranchForm.payload_c, providerShadowName) || nameTypeExists(newGammaNameTypesCtx, curBranchForm.payload_c.Ident) {\n",
+		New:    "\t\t\tif nameTypeExists(newGammaNameTypesCtx, curBranchForm.payload_c.Ident) {\n",
+		Expect: "(*process.CaseForm).typecheckForm | binder-is-not-the-provider"})
 	addFixture(Fixture{Name: "line-table-copied-per-newline", Rule: "R-PER-RUNE-CONST", File: "parser/scanner.go",
 		Old:    "\t\ts.pos.Lines = append(s.pos.Lines, s.pos.Char)",
 		New:    "\t\ts.pos.Lines = append(append([]int{}, s.pos.Lines...), s.pos.Char)",
